@@ -24,7 +24,8 @@ EXT_CLASSES = ['Plucker', 'SpatialVelocity', 'SpatialAcceleration', 'SpatialForc
                'SpatialMomentum']
 ALL_CLASSES = CORE_CLASSES + EXT_CLASSES
 # X(x) is documented as 'a copy' for poses, quaternions, twists and Plucker; the spatial-vector
-# constructor documents no such form, so the copy step is not issued for those classes
+# constructor accepts an instance but keeps only x.A, which is a value only when x holds exactly one,
+# so for those classes the copy step is issued for single-valued objects only
 NO_COPY = {'SpatialVelocity', 'SpatialAcceleration', 'SpatialForce', 'SpatialMomentum'}
 PAIRS = [('SO3', 'SE3'), ('SO2', 'SE2'), ('Quaternion', 'UnitQuaternion'),
          ('Twist2', 'Twist3'), ('SpatialVelocity', 'SpatialAcceleration'),
@@ -432,8 +433,8 @@ class World:
 
     def op_copy(self, rec):
         x = self.ref(rec['x'])
-        if x is None or x.cname in NO_COPY:
-            return {'r': 'skip'}
+        if x is None or (x.cname in NO_COPY and len(x.model) != 1):
+            return {'r': 'skip'}        # spatial vectors: X(x) is only meaningful for one value
         _, real = self.run_call(lambda: self.K[x.cname](x.real), 'ok', 'copy constructor')
         if real is x.real:
             self.fail('result_value', what='copy constructor returned its argument')
